@@ -66,8 +66,92 @@ def sig_nodes(nodes):
     return [(tuple(n.location), id(n.value)) for n in nodes]
 
 
+def env_paths(env):
+    lst = lambda it: list(it)  # noqa: E731
+    return {
+        "env.find": ("list", lambda q, d: lst(env.find(q, d))),
+        "env.finditer": ("list", lambda q, d: lst(env.finditer(q, d))),
+        "env.find_one": ("one", lambda q, d: env.find_one(q, d)),
+        "env.compile.find": ("list", lambda q, d: lst(env.compile(q).find(d))),
+        "env.compile.apply": ("list", lambda q, d: lst(env.compile(q).apply(d))),
+        "env.compile.finditer": ("list", lambda q, d: lst(env.compile(q).finditer(d))),
+        "env.compile.find_one": ("one", lambda q, d: env.compile(q).find_one(d)),
+    }
+
+
+def agree(pathsmap, q, doc, stage):
+    """All paths of one environment agree with list(compile(q).finditer(doc)) (results or exception class)."""
+    outcomes = {}
+    for name, (kind, fn) in pathsmap.items():
+        try:
+            r = fn(q, doc)
+            outcomes[name] = ("ok", sig_nodes(r) if kind == "list" else (None if r is None else sig_nodes([r])[0]))
+        except Exception as e:  # noqa: BLE001
+            outcomes[name] = ("err", type(e).__name__)
+    base = outcomes["env.compile.finditer"]
+    for name, (kind, _) in pathsmap.items():
+        o = outcomes[name]
+        if base[0] == "err":
+            if o != base:
+                return fail(f"reconfigured:error-class-differs:{name}", f"{stage}: {name}({q!r}) gives {_show(o)}, a fresh compile raises {base[1]}", base, o)
+        elif kind == "list":
+            if o != base:
+                return fail(f"reconfigured:list-differs:{name}", f"{stage}: {name}({q!r}) differs from a fresh compile", _show(base), _show(o))
+        else:
+            want = base[1][0] if base[1] else None
+            if o != ("ok", want):
+                return fail(f"reconfigured:find_one-differs:{name}", f"{stage}: {name}({q!r}) is not the first node of a fresh compile", repr(want), repr(o))
+    return None
+
+
+def examine_reconfigure(case):
+    """Use a query, reconfigure the environment (public mapping / attributes), use the same text again."""
+    import jsonpath_rfc9535 as jp
+    from jsonpath_rfc9535.function_extensions import ExpressionType as T
+    from jsonpath_rfc9535.function_extensions import FilterFunction
+
+    def mk(params, ret, result):
+        class F(FilterFunction):
+            arg_types = params
+            return_type = ret
+
+            def __call__(self, *a):
+                return result
+        return F()
+
+    env = jp.JSONPathEnvironment()
+    pm = env_paths(env)
+    doc = case["doc"]
+    env.function_extensions["f"] = mk([T.VALUE], T.LOGICAL, True)
+    env.function_extensions["g"] = mk([T.VALUE], T.VALUE, 1)
+    for q in case["queries"]:
+        f = agree(pm, q, doc, "before reconfiguration")
+        if f:
+            return f
+    how = case["how"]
+    if how == "delete":
+        del env.function_extensions["f"]
+        del env.function_extensions["length"]
+    elif how == "retype":
+        env.function_extensions["f"] = mk([T.VALUE, T.VALUE], T.LOGICAL, False)
+        env.function_extensions["g"] = mk([T.NODES], T.LOGICAL, True)
+    elif how == "bounds":
+        env.max_int_index = 1
+        env.min_int_index = -1
+    elif how == "behaviour":
+        env.function_extensions["f"] = mk([T.VALUE], T.LOGICAL, False)
+        env.function_extensions["g"] = mk([T.VALUE], T.VALUE, 2)
+    for q in case["queries"]:
+        f = agree(pm, q, doc, f"after reconfiguration ({how})")
+        if f:
+            return f
+    return None
+
+
 def examine(case):
     global _PATHS
+    if case.get("kind") == "reconfigure":
+        return examine_reconfigure(case)
     if _PATHS is None:
         _PATHS = paths()
     q, doc = case["q"], get_doc(case)
@@ -114,7 +198,7 @@ def fail(bucket, what, expected, observed):
 
 def plan(tier, seed):
     if tier == "quick":
-        return [{"n": 190} for _ in range(16)]
+        return [{"n": 500} for _ in range(16)]
     return [{"n": 5000} for _ in range(16)]
 
 
@@ -151,7 +235,15 @@ def run_shard(spec, shard):
             one({"q": r.choice(["$[?nope(@)]", "$[?length(@)]", "$[9007199254740992]", "$[?count(1)>0]", "$.a.",
                                 "$[?@.a==@.*]", "$[1:2:9007199254740993]", "", " $", "$[?match(@.a)]"]), "doc": doc},
                 {"invalid", "error-class-battery"})
-        elif k < 0.25:
+        elif k < 0.32:
+            qs = r.sample(["$[?f(@.a)]", "$[?g(@.a) == 1]", "$[?length(@) > 1]", "$[2]", "$[-2:]", "$[?f(@)]..[1]", "$[?!f(@.b)]",
+                           "$..[?g(@) == 1]", "$[?count(@.*) > 0 && f(1)]", "$[0]", "$[?@[5]]"], 4)
+            case = {"kind": "reconfigure", "doc": doc, "queries": qs, "how": r.choice(["delete", "retype", "bounds", "behaviour"])}
+            shard.case(key=(qs, case["how"], doc), nontrivial=True, classes={"reconfigure:" + case["how"]}, sample={"queries": qs, "how": case["how"]})
+            f = examine(case)
+            if f:
+                shard.fail(f["bucket"], case, f)
+        elif k < 0.4:
             one({"q": r.choice(["$..a", "$..*", "$[0]..[?@.a]", "$.a..z[0]", "$..[?@.z]", "$.*..a", "$..nomatch",
                                 "$..[?@.nomatch]", "$..[7]"]),
                  "deep": r.choice([10, 30, 49, 50, 51, 60, 80, 98, 99, 100, 101, 102, 120])}, {"deep-document"})
@@ -161,6 +253,8 @@ def run_shard(spec, shard):
 
 def minimise(case, failure, tier):
     bucket = failure["bucket"]
+    if case.get("kind") == "reconfigure":
+        return case, failure
     cur = dict(case)
 
     def ok_t(t):
